@@ -38,7 +38,7 @@ UNMODELLED = [
     'qemu e-notation magnitudes that are not integers below 2^53 (model outcome `unmodelled`)',
     'QemuImgInfo line splitting / key canonicalisation (only the size-field conversion is modelled)',
 ]
-ASSUMPTIONS = ['text and unit_system are str', 'a Unicode decimal digit counts as a digit of the magnitude in the oracle']
+ASSUMPTIONS = ['text is a str; unit_system is any hashable value (an unhashable one cannot be looked up: TypeError)', 'a Unicode decimal digit counts as a digit of the magnitude in the oracle']
 
 # ---------------------------------------------------------------------------
 # translator
@@ -145,11 +145,28 @@ def tables():
         raise ValueError('ASCII \\w set is %r' % words)
     if [c for c in range(128) if re.fullmatch(r'\d', chr(c))] != list(range(48, 58)):
         raise ValueError('ASCII \\d set changed')
-    return exps, systems, spaces
+    import inspect
+    par = inspect.signature(su.string_to_bytes).parameters
+    if list(par)[:3] != ['text', 'unit_system', 'return_int'] or par['return_int'].default is not False:
+        raise ValueError('string_to_bytes signature changed: %s' % inspect.signature(su.string_to_bytes))
+    default = par['unit_system'].default      # a str, or something else (then `none` in the generated table)
+    # does building the 'Invalid unit system' message fail for tuple values? (probe the live function)
+    outcomes = set()
+    for probe in ((), ('S', 'I'), ('I', 'E', 'C')):
+        try:
+            su.string_to_bytes('1KB', unit_system=probe)
+            outcomes.add('returned')
+        except ValueError:
+            outcomes.add('ValueError')
+        except TypeError:
+            outcomes.add('TypeError')
+    if outcomes not in ({'ValueError'}, {'TypeError'}):
+        raise ValueError('tuple-valued unit systems behave inconsistently: %s' % sorted(outcomes))
+    return exps, systems, spaces, default, outcomes == {'TypeError'}
 
 
 def generate():
-    exps, systems, spaces = tables()
+    exps, systems, spaces, default, tuple_fails = tables()
     out = ['/- GENERATED by harness/props/C10.py (generate) from oslo_utils/strutils.py and',
            '   oslo_utils/imageutils/qemu.py of the working tree - do not edit. -/',
            'namespace Oslo.Generated.C10', '',
@@ -171,6 +188,14 @@ def generate():
     out += [']', '',
             '/-- code points below 128 matched by `\\s` in a str pattern of the running interpreter -/',
             'def reSpaceAscii : List Nat := [%s]' % ', '.join(map(str, spaces)), '',
+            '/-- default of the `unit_system` parameter of string_to_bytes when it is a str; `none` when the',
+            '    default is any other value (which the model then treats like any non-string argument) -/',
+            'def defaultUnitSystem : Option (List Char) := %s'
+            % ('some ' + lean_chars(default) if isinstance(default, str) else 'none'), '',
+            '/-- whether the live string_to_bytes raises TypeError (instead of ValueError) for a tuple-valued',
+            '    unit system of length other than 1 (probed with `()`, `(\'S\', \'I\')`, `(\'I\', \'E\', \'C\')`): the',
+            '    message `"...%s" % unit_system` cannot be built unless the value is wrapped in a 1-tuple -/',
+            'def tupleMessageFails : Bool := %s' % ('true' if tuple_fails else 'false'), '',
             'end Oslo.Generated.C10', '']
     common.write_if_changed(os.path.join(common.LEAN, 'OsloModel', 'Generated', 'C10.lean'), '\n'.join(out))
 
@@ -218,8 +243,70 @@ def canon(fn, *a, **k):
     return ('other', repr(r)[:80])
 
 
+# A unit-system argument is a plain str (passed by keyword) or a triple [kind, name, form]:
+#   kind 'str' (name is the string), 'py' (name is a key of NONSTR: a hashable value that is not a str),
+#   'omitted' (the argument is left out: the documented default, IEC); form 'kw' or 'pos'.
+NONSTR = {'None': None, '0': 0, '1': 1, '-1': -1, 'False': False, 'True': True, '1.0': 1.0, '1024': 1024,
+          '1000.0': 1000.0, '2**70': 2 ** 70, 'nan': float('nan'), "b'IEC'": b'IEC', "b'SI'": b'SI',
+          "b'mixed'": b'mixed', "('IEC',)": ('IEC',), "('S', 'I')": ('S', 'I'), '()': (), 'frozenset()': frozenset(),
+          "frozenset({'IEC'})": frozenset({'IEC'}), 'Ellipsis': Ellipsis, 'NotImplemented': NotImplemented,
+          'str': str, 'len': len, '1j': 1j}
+OMITTED = ['omitted', '', 'kw']
+
+
+def sys_parts(sys):
+    if isinstance(sys, str):
+        return 'str', sys, 'kw'
+    kind, name, form = sys
+    return kind, name, form
+
+
+def sys_key(sys):
+    """the unit-system name the documentation gives the call: the string itself, IEC when the argument is
+    omitted, None (= unknown, whatever the value) for anything that is not a str"""
+    kind, name, _ = sys_parts(sys)
+    return name if kind == 'str' else ('IEC' if kind == 'omitted' else None)
+
+
+def sys_bad_tuple(sys):
+    """a tuple whose length is not 1: an unwrapped `'Invalid unit system: "%s"' % unit_system` could not format
+    it (repaired defect; the model asks the generated `tupleMessageFails` which way the live code goes)"""
+    kind, name, _ = sys_parts(sys)
+    return kind == 'py' and isinstance(NONSTR[name], tuple) and len(NONSTR[name]) != 1
+
+
+def sys_show(sys):
+    kind, name, form = sys_parts(sys)
+    if kind == 'omitted':
+        return '<omitted>'
+    return ('%r' % name if kind == 'str' else name) + ('' if form == 'kw' else ' (positional)')
+
+
+def sys_label(sys):
+    kind, name, form = sys_parts(sys)
+    if kind == 'str':
+        return (name if name in SYSTEMS else 'unknown-str') + ('' if form == 'kw' else '/pos')
+    return ('non-str' if kind == 'py' else 'omitted') + ('' if form == 'kw' else '/pos')
+
+
+def sys_in_domain(sys):
+    kind, name, _ = sys_parts(sys)
+    return kind != 'str' or in_model_domain(name)
+
+
+def sys_json(sys):
+    return sys if isinstance(sys, str) else list(sys)
+
+
 def impl_s2b(sys, text, ri):
-    return canon(_strutils().string_to_bytes, text, sys, return_int=ri)
+    kind, name, form = sys_parts(sys)
+    f = _strutils().string_to_bytes
+    if kind == 'omitted':
+        return canon(f, text, return_int=ri)
+    v = name if kind == 'str' else NONSTR[name]
+    if form == 'pos':
+        return canon(f, text, v, ri)
+    return canon(f, text, unit_system=v, return_int=ri)
 
 
 _QOBJ = []
@@ -439,12 +526,38 @@ def gen_text(rng):
 
 
 def gen_system(rng):
-    return rng.choice(SYSTEMS) if rng.random() < 0.93 else rng.choice(UNKNOWN_SYSTEMS)
+    r = rng.random()
+    form = 'kw' if rng.random() < 0.8 else 'pos'
+    if r < 0.85:
+        s = rng.choice(SYSTEMS)
+        return s if form == 'kw' else ['str', s, form]
+    if r < 0.89:
+        return OMITTED
+    if r < 0.945:
+        return ['str', rng.choice(UNKNOWN_SYSTEMS), form]
+    return ['py', rng.choice(sorted(NONSTR)), form]
 
 
 QEMU_UNITS = ['', '', 'K', 'M', 'G', 'T', 'P', 'E', 'B', 'KiB', 'MiB', 'GiB', 'TiB', 'KB', 'MB', 'GB', 'k', 'b', 'bit',
               'Kb', 'Kib', 'bytes', 'Z', 'YiB', 'QB', 'm', 'Ki', 'iB', 'e', 'e5', '_K', 'K_', 'BB', 'KBB']
 QWS = ['', '', ' ', ' ', '  ', '\t', ' \t ']
+
+
+BOUNDARY_N = [0, 0, 0, 1, 1, 2, 511, 2048, 2 ** 40 + 1, 2 ** 63, 2 ** 64 - 1, 10 ** 30]
+
+
+def gen_byte_figure(rng):
+    """N of an explicit "(N bytes)" figure: independent of the human-readable figure, boundary values included"""
+    return rng.choice(BOUNDARY_N) if rng.random() < 0.3 else rng.randrange(0, 2 ** rng.choice([8, 20, 45, 70]))
+
+
+def qemu_precedence_sweep():
+    """human figure x explicit figure x spelling of the hint: the explicit figure must win, for every N"""
+    figures = ['64M', '64 MiB', '4.4M', '4.4 MiB', '2K', '1.5 GiB', '1e+03 MiB', '512', '0', '0 B', '3 TiB', '7 foo', '.5G']
+    for fig in figures:
+        for n in (0, 1, 511, 2048, 4592640, 67108844, 2 ** 40 + 1, 2 ** 63, 10 ** 30):
+            for hint in ('(%d bytes)', ' (%d bytes)', ' ( %d  BYTES )'):
+                yield fig + hint % n
 
 
 def gen_qemu(rng):
@@ -458,7 +571,7 @@ def gen_qemu(rng):
         d = mag + rng.choice(QWS) + unit
         tag = 'qemu/human'
         if rng.random() < 0.55:
-            n = rng.randrange(0, 2 ** 45)
+            n = gen_byte_figure(rng)
             d += rng.choice(QWS) + '(' + rng.choice(['', '', ' ']) + str(n) + rng.choice([' ', ' ', '  ', '\t']) + \
                 rng.choice(['bytes', 'bytes', 'Bytes', 'BYTES']) + rng.choice(['', '', ' ']) + ')'
             tag = 'qemu/human+bytes'
@@ -474,7 +587,7 @@ def gen_qemu(rng):
         e = rng.choice('eE') + rng.choice(['+', '+', '-']) + str(rng.randrange(0, 14) if rng.random() < 0.9 else rng.randrange(14, 400))
         d = ds + e + rng.choice(QWS) + rng.choice(QEMU_UNITS[:12])
         if rng.random() < 0.35:
-            d += rng.choice(QWS) + '(%d%sbytes)' % (rng.randrange(0, 2 ** 45), rng.choice([' ', '  ']))
+            d += rng.choice(QWS) + '(%d%sbytes)' % (gen_byte_figure(rng), rng.choice([' ', '  ']))
             return d, 'qemu/e-notation+bytes'
         return d, 'qemu/e-notation'
     if r < 0.72:
@@ -494,8 +607,15 @@ def gen_qemu(rng):
 # ---------------------------------------------------------------------------
 # correspondence
 
+def s2b_line(sys, text, ri):
+    kind, name, _ = sys_parts(sys)
+    if kind == 'str':
+        return req('s2b', hexs(name), hexs(text), int(ri))
+    return req(('s2bt' if sys_bad_tuple(sys) else 's2bx') if kind == 'py' else 's2bd', hexs(text), int(ri))
+
+
 def s2b_lines(sys, text):
-    return [req('s2b', hexs(sys), hexs(text), 0), req('s2b', hexs(sys), hexs(text), 1)]
+    return [s2b_line(sys, text, 0), s2b_line(sys, text, 1)]
 
 
 def in_model_domain(text):
@@ -522,10 +642,18 @@ def correspondence(ctx):
             for unit in UNITS + BAD_UNITS[:4]:
                 for mag in ('1', '3.5', '-16.1'):
                     cases.append((sys, mag + pfx + unit, 'table-sweep'))
+    # every non-string value, every unknown string and the omitted argument x keyword / positional
+    for text in ('1KB', '-7.9Mib', '.5B', '12bit', '1kB', 'x'):
+        for form in ('kw', 'pos'):
+            for name in sorted(NONSTR):
+                cases.append((['py', name, form], text, 'system-sweep'))
+            for name in UNKNOWN_SYSTEMS + SYSTEMS:
+                cases.append((['str', name, form], text, 'system-sweep'))
+        cases.append((OMITTED, text, 'system-sweep'))
     for _ in range(n_txt):
         text, tag = gen_text(rng)
         cases.append((gen_system(rng), text, tag))
-    cases = [c for c in cases if in_model_domain(c[1]) and in_model_domain(c[0])]
+    cases = [c for c in cases if in_model_domain(c[1]) and sys_in_domain(c[0])]
     for sys, text, tag in cases:
         lines += s2b_lines(sys, text)
     replies = ctx.driver.ask_many(lines)
@@ -534,18 +662,19 @@ def correspondence(ctx):
         py0, py1 = impl_s2b(sys, text, False), impl_s2b(sys, text, True)
         ctx.evaluations += 2
         ctx.count('corr/s2b/' + tag)
-        ctx.count('corr/s2b/sys/' + (sys if sys in SYSTEMS else 'unknown'))
+        ctx.count('corr/s2b/sys/' + sys_label(sys))
         ctx.count('corr/s2b/impl/' + (py0[1] if py0[0] == 'err' else py0[0]))
         ctx.count('corr/s2b/model/' + (mo0[1] if mo0[0] == 'err' else mo0[0]))
-        if (sys, text) not in seen and nontrivial_s2b(text, py0):
-            ctx.nontrivial(('s2b', sys, text, 0))
-            ctx.nontrivial(('s2b', sys, text, 1))
-        seen.add((sys, text))
+        skey = repr(sys_json(sys))
+        if (skey, text) not in seen and nontrivial_s2b(text, py0):
+            ctx.nontrivial(('s2b', skey, text, 0))
+            ctx.nontrivial(('s2b', skey, text, 1))
+        seen.add((skey, text))
         if len(text) < 30:
-            ctx.sample({'fn': 's2b', 'unit_system': sys, 'text': text, 'implementation': [show(py0), show(py1)],
+            ctx.sample({'fn': 's2b', 'unit_system': sys_json(sys), 'text': text, 'implementation': [show(py0), show(py1)],
                         'model': [replies[2 * i], replies[2 * i + 1]]}, 5)
         if not agree_s2b(py0, py1, mo0, mo1):
-            out.append(Disagreement({'fn': 's2b', 'unit_system': sys, 'text': text},
+            out.append(Disagreement({'fn': 's2b', 'unit_system': sys_json(sys), 'text': text},
                                     [show(py0), show(py1)], [replies[2 * i], replies[2 * i + 1]]))
     # qemu size fields
     qcases = []
@@ -554,6 +683,8 @@ def correspondence(ctx):
               '12 (3 bytes', '1.5e+3', '12e5', 'None', 'unavailable', '', '1 GiB (1073741824 bytes)', '196 KiB',
               '0 B (0 bytes)', '1.1G', '9' * 400 + 'K', '1e+400', '1e-400', '5e-1', '12e+', '.5K', '..5', 'a.5 M']:
         qcases.append((d, 'qemu/fixed'))
+    for d in qemu_precedence_sweep():
+        qcases.append((d, 'qemu/precedence-sweep'))
     for _ in range(n_qemu):
         qcases.append(gen_qemu(rng))
     qcases = [c for c in qcases if in_model_domain(c[0])]
@@ -630,7 +761,8 @@ def digits_value(ds):
 
 def spec(sys, text):
     """None if the documented grammar does not admit `text` in `sys`, else (magnitude, quantity) as Fractions"""
-    if sys not in SPEC_ADMITS:
+    sys = sys_key(sys)          # a str, or None for any value that is not a str
+    if sys is None or sys not in SPEC_ADMITS:
         return None
     m = FORM_RE.match(text)
     if not m:
@@ -667,6 +799,9 @@ def assess_s2b(sys, text, ri):
     if sp is None:
         if py == ('err', 'ValueError'):
             return None
+        if sys_key(sys) not in SPEC_ADMITS:
+            return ('unknown-system', 'unit system %s is none of IEC, SI, mixed but the call %s instead of raising '
+                    'ValueError' % (sys_show(sys), 'raised ' + py[1] if py[0] == 'err' else 'returned ' + show(py)), None)
         if py[0] == 'err':
             return ('wrong-exception', 'text outside the grammar of %r raised %s, not ValueError' % (sys, py[1]), None)
         if text.endswith('\n') and spec(sys, text[:-1]) is not None:
@@ -820,6 +955,14 @@ def search_texts(ctx, n):
         for ri in (False, True):
             yield sys, '1KB\n' if sys != 'SI' else '1kB\n', ri
             yield sys, '-2.5bit\n', ri
+    for text in ('1KB', '-7.9Mib', '.5B', '12bit', '1kB'):       # every kind of unit-system argument
+        for ri in (False, True):
+            for form in ('kw', 'pos'):
+                for name in sorted(NONSTR):
+                    yield ['py', name, form], text, ri
+                for name in UNKNOWN_SYSTEMS + SYSTEMS:
+                    yield ['str', name, form], text, ri
+            yield OMITTED, text, ri
     for sys in SYSTEMS:
         for pfx in [''] + ALL_PREFIXES:
             for unit in UNITS:
@@ -891,7 +1034,7 @@ def search(ctx, seeds, full=False):
         r = assess_s2b(sys, text, ri)
         if r:
             ctx.count('search/s2b/fail/' + r[0])
-            record({'fn': 's2b', 'unit_system': sys, 'text': text, 'return_int': ri}, r)
+            record({'fn': 's2b', 'unit_system': sys_json(sys), 'text': text, 'return_int': ri}, r)
             if len(new) >= 5:
                 break
     for d in QEMU_SEARCH_FIXED:
@@ -900,6 +1043,15 @@ def search(ctx, seeds, full=False):
         if r:
             ctx.count('search/qemu/fail/' + r[0])
             record({'fn': 'qemu', 'details': d}, r)
+    for d in qemu_precedence_sweep():       # also through the public object, all three size fields
+        for which in (None, 0, 1, 2):
+            if len(new) >= 5:
+                break
+            ctx.evaluations += 1
+            r = assess_qemu(d, which)
+            if r:
+                ctx.count('search/qemu/fail/' + r[0])
+                record({'fn': 'qemu' if which is None else 'field', 'details': d, 'which': which or 0}, r)
     for i in range(nq):
         if len(new) >= 5:
             break
@@ -954,10 +1106,10 @@ def replay(ctx, payload):
     if case.get('fn') == 's2b':
         ris = [bool(case['return_int'])] if 'return_int' in case else [False, True]
         for ri in ris:
-            print('string_to_bytes(%r, %r, return_int=%r)' % (case['text'], case['unit_system'], ri))
+            print('string_to_bytes(%r, unit_system %s, return_int=%r)' % (case['text'], sys_show(case['unit_system']), ri))
             print('  implementation:', show(impl_s2b(case['unit_system'], case['text'], ri)))
-            if in_model_domain(case['text']) and in_model_domain(case['unit_system']):
-                print('  model         :', ctx.driver.ask(req('s2b', hexs(case['unit_system']), hexs(case['text']), int(ri))))
+            if in_model_domain(case['text']) and sys_in_domain(case['unit_system']):
+                print('  model         :', ctx.driver.ask(s2b_line(case['unit_system'], case['text'], ri)))
             else:
                 print('  model         : <input outside the modelled character domain>')
             sp = spec(case['unit_system'], case['text'])
